@@ -1146,6 +1146,7 @@ NX_FUNCS = {
     "has_path": M.nx_has_path,
     "is_directed_acyclic_graph": M.nx_is_dag,
     "topological_sort": nx_topological_sort,
+    "all_simple_paths": M.nx_all_simple_paths,
 }
 
 NX_MODEL_SET = set(NX_FUNCS.values())
